@@ -129,7 +129,7 @@ VARIANTS = list(variants())
 class C10(Check):
     ID = 'C10'
     LEVEL = 'exploration'
-    BUDGET = {'quick': 30, 'thorough': 240}
+    BUDGET = {'quick': 75, 'thorough': 240}
     RULE = ('case = (operator with parameters, mode, sequence). Box: EVERY sequence over {0,1,2,None} of length <= 4 (quick) / 6 (thorough) x 55 operator variants '
             '(first, last, take n in {0,1,2,3,7}, distinct / distinct_until_changed with key None/isnone/parity, lag n in {0,1,2,3,5}, pad_start / pad_end n in 0..3 with value '
             'None/explicit, start_with (incl. empty padding), batch n in {1,2,3,4,7}, sort by key asc/desc on (key, tag) pairs to observe stability) x modes plain (where the '
